@@ -2145,9 +2145,15 @@ def c01x(F, R):
         # a place that (1) looks at a store, (2) asks what its base register holds and recognises `entry sp + k`, (3) writes a StackOffset fact
         looks_store = any((y.get("res") or "").endswith("ParserNode::Store") for y in walk(body)) or any(y.get("k") == "MethodCall" and y["name"] == "stores_to_memory" for y in walk(body, pats=False))
         asks_value = False
+        tests = []   # (pattern, what is looked at): `if let`, `let .. else`, and the arms of a `match`
         for m in walk(body, pats=False):
-            if m.get("k") == "LetExpr" and any((y.get("res") or "").endswith("AvailableValue::OriginalRegisterWithScalar") for y in walk(m["pat"])):
-                ini = list(walk(m["init"], pats=False))
+            if m.get("k") in ("LetExpr", "Let") and m.get("init"):
+                tests.append((m["pat"], m["init"]))
+            elif m.get("k") == "Match" and m.get("src") in (None, "Normal"):
+                tests += [(a_["pat"], m["scrut"]) for a_ in m["arms"]]
+        for pat_, init_ in tests:
+            if any((y.get("res") or "").endswith("AvailableValue::OriginalRegisterWithScalar") for y in walk(pat_)):
+                ini = list(walk(init_, pats=False))
                 if any(y.get("k") == "MethodCall" and y["name"] == "get" for y in ini) and any(y.get("k") == "Field" and y["name"] == "rs1" for y in ini) or any(y.get("k") == "Path" and y.get("res_kind") == "Local" for y in ini) and g is not f:
                     asks_value = True
         writes_slot = any(m.get("k") == "MethodCall" and m["name"] in ("insert", "remove") and any((y.get("res") or "").endswith("MemoryLocation::StackOffset") for y in walk(m, pats=False)) for m in walk(body, pats=False))
@@ -2156,8 +2162,171 @@ def c01x(F, R):
             found = g
     if found is not None:
         R.ok("alias", detail=f"{short(found['path'])}: a store through a register that holds `entry sp + k` updates / drops the slot it hits", where=found["sp"])
+        # ... and the slot it hits is `k + the store's own offset` (`addi t1, sp, 4; sw zero, 8(t1)` writes slot 12, not 4 and not 8)
+        body = found["hir"]["value"]
+        offs = set()
+        for y in walk(body):
+            if y.get("k") == "PTupleStruct" and (y.get("res") or "").endswith("AvailableValue::OriginalRegisterWithScalar") and len(y.get("pats", [])) == 2 and y["pats"][1].get("k") == "PBinding":
+                offs.add(y["pats"][1]["name"])
+        lets_ = local_inits(body)
+
+        def atom(e):
+            x = e
+            while x.get("k") == "MethodCall" and x["name"] in ("value", "get", "get_cloned", "clone") and not x["args"]:
+                x = peel(x["recv"])
+            if x is not e and x.get("k") == "Field" and x["name"] == "imm":
+                return "imm"
+            return None
+        n_ = 0
+        for c in walk(body, pats=False):
+            if c.get("k") == "Call" and (callee_of(c) or "").endswith("MemoryLocation::StackOffset") and c["args"]:
+                n_ += 1
+                try:
+                    lf = linform(c["args"][0], lets_, atom=atom)
+                except LinUnx as ex:
+                    R.bad(f"slot|{ekey(c['args'][0])}|unextractable", f"UNEXTRACTABLE: the slot `{ekey(c['args'][0])}` is not a sum that can be read ({ex})", loc(c))
+                    continue
+                others = [k_ for k_, v_ in lf.items() if k_ and v_ and k_ != "imm" and k_ not in offs]
+                if lf.get("imm", 0) == 1 and sum(lf.get(o, 0) for o in offs) == 1 and (others or lf.get("", 0) == 0):
+                    R.ok(f"slot|{ekey(c['args'][0])}", detail="the slot is the known offset of the base register plus the store's own offset" + (f" (+ {others} over the bytes of the word)" if others else ""), where=loc(c))
+                else:
+                    R.bad(f"slot|{ekey(c['args'][0])}", f"the slot `{ekey(c['args'][0])}` = {lf} is not `known offset of the base register + the store's offset`: `addi t1, sp, 4; sw zero, 8(t1)` writes the word at entry sp + 12, the fact lands on another slot and slot 12 keeps its old claim", loc(c))
+        if not n_:
+            R.bad("slot|none", "the alias rule names no stack slot", found["sp"])
     else:
         R.bad("alias", "no rule of the value pass applies a store through a register that is known to point into the stack frame: `li t0, 7; sw t0, 4(sp); addi t1, sp, 4; sw zero, 0(t1); lw a7, 4(sp); ecall` keeps claiming slot 4 = 7 and reads the ecall as service 7 (the machine: 0)", f["sp"])
+
+
+# bytes written by the narrow store instructions (RISC-V ISA: sb = 1, sh = 2); a word is 4 bytes
+NARROW_STORE_BYTES = {"Sb": 1, "Sh": 2}
+
+
+@rule("C01", "C01.y.a-narrow-store-drops-every-word-it-overlaps", floor=2)
+def c01y(F, R):
+    """a slot fact stands for the 4 bytes at `slot .. slot+3`. A store of w bytes at offset o changes bytes o .. o+w-1, so it touches every tracked
+    word whose slot s satisfies o-3 <= s <= o+w-1: the facts dropped are exactly the half-open range (-3 .. w) around o - fewer leaves a word that
+    was partly overwritten with its old claim (`sw zero, 0(sp); sb t0, 3(sp); lw a7, 0(sp)` still says 0)"""
+    from .p_parse import parent_map
+    ST = "riscv_analysis::parser::inst::StoreType"
+    narrow = [v for v in F.variants(ST) if v in NARROW_STORE_BYTES]
+    other = [v for v in F.variants(ST) if v not in NARROW_STORE_BYTES and v not in ("Sw", "Sd")]
+    if other:
+        R.bad("store-types|" + ",".join(other), f"UNEXTRACTABLE: StoreType has variants {other} whose width this rule does not know", F.fns[sorted(F.fns)[0]]["sp"])
+    if not narrow:
+        raise Anchor("StoreType has no narrow variant")
+
+    def intval(e, lets):
+        e = peel(e)
+        while e.get("k") in ("DropTemps", "Use", "Cast"):
+            e = peel(e["e"])
+        lv = lit_value(e)
+        if isinstance(lv, int) and not isinstance(lv, bool):
+            return lv
+        if e.get("k") == "Unary" and e.get("op") == "Neg":
+            v = intval(e["a"], lets)
+            return None if v is None else -v
+        return None
+
+    def per_type(e, lets, depth=0):
+        """value of an integer expression per narrow store type: {T: int | None (control leaves: no range for T) }; None = unknown"""
+        e = peel(e)
+        while e.get("k") in ("DropTemps", "Use", "Cast") or (e.get("k") == "Block" and not e.get("stmts") and e.get("expr") is not None):
+            e = peel(e["e"] if e.get("k") != "Block" else e["expr"])
+        v = intval(e, lets)
+        if v is not None:
+            return {t: v for t in narrow}
+        if e.get("k") == "Path" and e.get("res_kind") == "Local" and e["res"] in lets and depth < 4:
+            return per_type(lets[e["res"]], lets, depth + 1)
+        if e.get("k") == "Match" and e.get("src") in (None, "Normal"):
+            out = {}
+            for arm in e["arms"]:
+                vs = {short(v_) for k_, v_ in pat_variants(arm["pat"]) if k_ == "path" and v_ and v_.startswith(ST + "::")}
+                wild = arm["pat"].get("k") in ("PWild", "PBinding")
+                if arm.get("guard") is not None:
+                    return None
+                b = peel(arm["body"])
+                while b.get("k") == "Block" and not b.get("stmts") and b.get("expr") is not None:
+                    b = peel(b["expr"])
+                val = None if (b.get("k") == "Ret" or any(y.get("k") == "Ret" for y in walk(b, pats=False))) else intval(b, lets)
+                if val is None and not (b.get("k") == "Ret" or any(y.get("k") == "Ret" for y in walk(b, pats=False))):
+                    return None
+                for t in narrow:
+                    if t not in out and (t in vs or wild):
+                        out[t] = val
+            return out if all(t in out for t in narrow) else None
+        return None
+
+    per_fn = {}
+    for q, g in sorted(F.fns.items()):
+        if "::analysis::" not in q or "hir" not in g or "{closure" in q:
+            continue
+        body = g["hir"]["value"]
+        if not any(c.get("k") == "Call" and (callee_of(c) or "").endswith("MemoryLocation::StackOffset") for c in walk(body, pats=False)):
+            continue
+        lets = local_inits(body)
+        pm = parent_map(body)
+        for r in walk(body, pats=False):
+            lo = hi = None
+            if r.get("k") == "Struct" and (r.get("res") or "").endswith("ops::range::Range"):
+                fl = {f_["name"]: f_["e"] for f_ in r.get("fields", [])}
+                lo, hi, incl = fl.get("start"), fl.get("end"), 0
+            elif r.get("k") == "Call" and (callee_of(r) or "").endswith("RangeInclusive::new") and len(r["args"]) == 2:
+                lo, hi, incl = r["args"][0], r["args"][1], 1
+            if lo is None or hi is None or "i32" not in (r.get("ty") or ""):
+                continue
+            # the range feeds slots: the expression / loop it drives names a StackOffset
+            top = r
+            while pm.get(id(top)) is not None and pm[id(top)].get("k") in ("MethodCall", "Call", "DropTemps", "Use", "Paren", "AddrOf") and not (pm[id(top)].get("k") == "Call" and (callee_of(pm[id(top)]) or "").endswith("MemoryLocation::StackOffset")):
+                top = pm[id(top)]
+            scope = top
+            par = pm.get(id(top))
+            if par is not None and par.get("k") == "Match" and par.get("src") == "ForLoopDesugar":
+                scope = par
+            if not any(c.get("k") == "Call" and (callee_of(c) or "").endswith("MemoryLocation::StackOffset") for c in walk(scope, pats=False)):
+                continue
+            # which store types get here: the arms of enclosing matches on the store type
+            here = set(narrow)
+            n = r
+            while pm.get(id(n)) is not None:
+                up = pm[id(n)]
+                if up.get("k") == "Match" and up.get("src") in (None, "Normal"):
+                    for arm in up["arms"]:
+                        if arm is n or any(y is n for y in (arm["body"], arm.get("guard")) if y is not None):
+                            vs = {short(v_) for k_, v_ in pat_variants(arm["pat"]) if k_ == "path" and v_ and v_.startswith(ST + "::")}
+                            if vs:
+                                here &= vs
+                n = up
+            lo_v = intval(lo, lets)
+            if lo_v is None and peel(lo).get("k") == "Path" and peel(lo).get("res") in lets:
+                lo_v = intval(lets[peel(lo)["res"]], lets)
+            his = per_type(hi, lets)
+            key0 = f"{short(q)}|{ekey(lo)}..{'=' if incl else ''}{ekey(hi)}"
+            if lo_v is None or his is None:
+                R.bad(key0 + "|unextractable", f"UNEXTRACTABLE: the bounds of `{ekey(lo)}..{ekey(hi)}` (slots dropped around a store) are not literal per store type", loc(r))
+                continue
+            for t in sorted(here):
+                if his.get(t) is None:
+                    continue
+                per_fn.setdefault(q, set()).add(t)
+                w = NARROW_STORE_BYTES[t]
+                if lo_v == -3 and his[t] + incl == w:
+                    R.ok(f"{key0}|{t}", detail=f"{t} ({w} byte{'s' if w > 1 else ''}): the words at offsets -3 .. {w - 1} around the store are dropped", where=loc(r))
+                else:
+                    R.bad(f"{key0}|{t}", f"a {t} store changes {w} byte(s): it overlaps the words at offsets -3 ..= {w - 1} around it, but the facts dropped are those at {lo_v} ..= {his[t] + incl - 1}: "
+                          + ("a word that is partly overwritten keeps its old claim (`sw zero, 0(sp); sb t0, 3(sp); lw a7, 0(sp)` still says 0)" if lo_v > -3 or his[t] + incl < w else "words that the store does not touch lose their facts (imprecise, and the stack lints then miss a saved register)"), loc(r))
+    for q, ts in sorted(per_fn.items()):
+        miss = [t for t in narrow if t not in ts]
+        if miss:
+            R.bad(f"{short(q)}|covers|{','.join(miss)}", f"{short(q)} drops the overlapped words for {sorted(ts)} but not for {miss}", F.fns[q]["sp"])
+    # the direct form (`sb t0, 3(sp)`) is decided where the node says what it kills in memory
+    kp = F.method(PNODE, "kill_memory_values", trait="HasGenValueInfo")
+    if not kp:
+        raise Anchor("no kill_memory_values on ParserNode")
+    reach = {kp} | {callee_of(c) for c in walk(F.fn(kp)["hir"]["value"], pats=False) if c.get("k") in ("Call", "MethodCall")}
+    if any(q in reach for q in per_fn):
+        R.ok("direct", detail="kill_memory_values names the words that a narrow store through sp overlaps", where=F.fn(kp)["sp"])
+    else:
+        R.bad("direct", "what a node kills in memory names no word for a narrow store through sp: `sw zero, 0(sp); sb t0, 0(sp); lw a7, 0(sp)` keeps the claim slot 0 = 0", F.fn(kp)["sp"])
 
 
 @rule("C01", "C01.h.kill-reaches-values", floor=1)
